@@ -189,3 +189,92 @@ func TWO_ENCODERS(h *rt.H) {
 	h.Assert("no-error", e1 == nil && e2 == nil && e3 == nil && e4 == nil)
 	h.Assert("same-result-as-alone", rt.BytesEq(o1.B, a1.B) && rt.BytesEq(o2.B, a2.B))
 }
+
+type sharedOptNum int8
+
+type sharedOptCell struct {
+	Lo, Hi sharedOptNum
+}
+
+type sharedOptT struct {
+	S int16
+	n int8
+}
+
+type sharedOptFoldT struct{ A int8 }
+
+// TWO_SHARED_OPTIONS (C19): two unfolders (and two iterators) that are separate
+// instances but were configured with the *same* option values - an option is a
+// description, instances built from it share nothing mutable. One pipeline per
+// goroutine: unfold {"lo":x,"hi":y} through a processing unfolder whose cell is a
+// struct (its unfolder is compiled on first use), then fold a value through a
+// registered folder. No write to anything that existed before the two started.
+func TWO_SHARED_OPTIONS(h *rt.H) {
+	x, y := int8(h.U8("x")), int8(h.U8("y"))
+	h.Assume(x >= 0 && x <= 9 && y >= 0 && y <= 9)
+	proc := func(to *sharedOptT) (interface{}, func(*sharedOptT, interface{}) error) {
+		return &sharedOptCell{}, func(to *sharedOptT, cell interface{}) error {
+			c := cell.(*sharedOptCell)
+			to.S = int16(c.Hi) - int16(c.Lo)
+			to.n++
+			return nil
+		}
+	}
+	prim := func(to *sharedOptNum, s string) error {
+		*to = sharedOptNum(len(s))
+		return nil
+	}
+	folder := func(p *sharedOptFoldT, v structform.ExtVisitor) error { return v.OnInt16(int16(p.A) + 1000) }
+	uopt := gotype.Unfolders(proc)
+	fopt := gotype.Folders(folder)
+	// the second unfolder registers one more user unfolder: its registry differs
+	extra := h.Param("EXTRA", 0) == 1 // (not registered: with two Unfolders options the second pipeline is refused also when it runs alone)
+	run := func(second bool, out *sharedOptT, ev2 *ev.Recorder, errOut *error) func() {
+		return func() {
+			opts := []gotype.UnfoldOption{uopt}
+			if second && extra {
+				opts = append(opts, gotype.Unfolders(prim))
+			}
+			u, err := gotype.NewUnfolder(out, opts...)
+			if err != nil {
+				*errOut = err
+				return
+			}
+			v := structform.EnsureExtVisitor(u)
+			step := func(e error) {
+				if *errOut == nil {
+					*errOut = e
+				}
+			}
+			step(v.OnObjectStart(-1, structform.AnyType))
+			step(v.OnKey("lo"))
+			if second && extra {
+				step(v.OnString("abc"))
+			} else {
+				step(v.OnInt8(x))
+			}
+			step(v.OnKey("hi"))
+			step(v.OnInt8(y))
+			step(v.OnObjectFinished())
+			it, err := gotype.NewIterator(ev2, fopt)
+			if err != nil {
+				step(err)
+				return
+			}
+			step(it.Fold(sharedOptFoldT{x}))
+		}
+	}
+	var o1, o2 sharedOptT
+	var r1, r2 ev.Recorder
+	var e1, e2 error
+	h.Go(run(false, &o1, &r1, &e1), run(true, &o2, &r2, &e2))
+	h.AssertIndependent("independent")
+	h.Assert("no-error", e1 == nil && e2 == nil)
+	lo2 := x
+	if extra {
+		lo2 = 3
+	}
+	h.Assert("same-result-as-alone", o1.S == int16(y)-int16(x) && o1.n == 1 && o2.S == int16(y)-int16(lo2) && o2.n == 1)
+	want := []ev.Event{sNum(int64(x) + 1000)}
+	h.Assert("fold-same-as-alone", ev.Equal(ev.Normalise(r1.Events), want) && ev.Equal(ev.Normalise(r2.Events), want))
+}
